@@ -262,8 +262,12 @@ NLScenario(k) ==
 (* next to RB by source 1 -- decoded against the other source's reference  *)
 (* a surface report lands one 90 NM zone away.  Aircraft 1 (DF17) and the  *)
 (* two DF18 targets 3 and 4 are airborne at different places, their even   *)
-(* and odd reports interleaved.  Two trailing pairs after a pause flush    *)
-(* jet1090's deduplication window.                                         *)
+(* and odd reports interleaved.  The scenario opens with an even/odd pair  *)
+(* of aircraft 1 heard by BOTH sources (same bytes, merged by jet1090's    *)
+(* deduplication; source k mod 2 first), then a pause that closes the      *)
+(* window: a program that lets such a merged message rewrite the other     *)
+(* source's reference misplaces the surface reports that follow.  Two      *)
+(* trailing pairs after a pause flush the deduplication window.            *)
 (***************************************************************************)
 E2EScenario(k) ==
   LET anchor == Anchor(k)
@@ -280,10 +284,12 @@ E2EScenario(k) ==
       round(n) == LET q == R(k, 20 + n) % 2
                   IN  << <<1, q>>, <<3, q>>, <<4, q>>, <<1, 1 - q>>, <<3, 1 - q>>, <<4, 1 - q>>,
                          <<2, q>>, <<0, q>>, <<2, 1 - q>>, <<0, 1 - q>> >>
-      order == round(1) \o round(2) \o << <<1, 0>>, <<4, 0>>, <<1, 1>>, <<4, 1>> >>
+      q0 == R(k, 19) % 2
+      order == << <<1, q0>>, <<1, 1 - q0>> >> \o round(1) \o round(2) \o << <<1, 0>>, <<4, 0>>, <<1, 1>>, <<4, 1>> >>
   IN  [id |-> k, fam |-> "e2e", ref |-> RA, refu |-> NONE, refs |-> << RA, RB >>,
        rxof |-> << <<0, 1>>, <<1, 0>>, <<2, 0>>, <<3, 0>>, <<4, 1>> >>,
-       pause_before |-> << 21, 23 >>,
+       both |-> << 1, 2 >>, both_first |-> k % 2,
+       pause_before |-> << 3, 23, 25 >>,
        reports |-> [i \in 1..Len(order) |->
                       LET a == order[i][1] IN
                       Rep(a, i * 100, kind[a], order[i][2], pos[a][1], pos[a][2], NONE)]]
